@@ -203,6 +203,16 @@ Plan generate_plan(const std::string &lane, uint64_t seed, int tier) {
     }
     p.ops.push_back(mk(OP_create_block));
     p.ops.back().s = "a";
+    // lane-specific prelude so that most runs reach the state their oracles need
+    auto pre = [&](int kind, const char *name) { Op o = mk(kind); o.s = name; o.a[5] = 7; p.ops.push_back(o); return &p.ops.back(); };
+    if (lane == "props") { Op *o = pre(OP_create_section, "a"); o->a[1] = 0; pre(OP_prop_create, "b")->a[3] = 0; }
+    else if (lane == "frame") { Op *o = pre(OP_create_frame, "a"); o->a[1] = 0; o->a[2] = 0; pre(OP_frame_rows, "a"); }
+    else if (lane == "dims" || lane == "array") { Op *o = pre(OP_create_array, "a"); o->a[1] = 0; o->a[5] = 0; }
+    else if (lane == "delete" || lane == "names" || lane == "tree" || lane == "durable") {
+        Op *o = pre(OP_create_array, "a"); o->a[1] = 0; o->a[5] = 0;
+        o = pre(OP_create_section, "a"); o->a[1] = 0;
+        o = pre(OP_create_tag, "a"); o->a[1] = 0;
+    }
     int pending_ro = 0;     // ops left in a read-only session before the plan reopens RW
     bool after_flush = false;
     for (int i = 0; i < s.nops; i++) {
